@@ -1215,7 +1215,7 @@ func TestCheck(t *testing.T) {
 		},
 	}
 	pbt.Add(s, &pbt.Spec[vfCase29]{Name: "seq", Gen: vfGen29, Run: vfRun29, Static: vfStatic29,
-		Quick: 1200, Thorough: 30000, Shards: 8, Timeout: 12 * time.Minute})
+		Quick: 3000, Thorough: 80000, Shards: 8, Timeout: 12 * time.Minute})
 	s.Extra("gateway_flavour", vfGatewayFlavour)
 	s.Main(t)
 	_ = os.Stdout
